@@ -4,6 +4,10 @@ import json
 props=[json.loads(l) for l in open('/verif/properties.jsonl')]
 # id -> (technique, level text, level note)
 CLAIMED={
+ 'C11':("exhaustive enumeration of inputs x configurations (all 2^k text/binary choices), relational oracle",
+        "every text of the corpus through every document-taking function in text and binary form with every derived argument; all four configurations for two-document functions on every ordered pair of a subset",
+        "bounded corpus; what a text denotes is decided by the model parser"),
+
  'C02':("exhaustive language enumeration (LANG): all token strings up to a length bound, all single-token corruptions, all spelling variants, against an independent recogniser/evaluator",
         "every token string of length<=5/6 over a 32-token alphabet, every single-token corruption of every well-formed rendering, every whitespace/number/escape spelling, every \\uXXXX code unit and every Unicode scalar value",
         "bounded token-string length; numbers limited to the spelling list (correct rounding checked against Rust std's parser)"),
